@@ -39,6 +39,9 @@ def run(R, job):
         yield "inline-after-metadata", core.Tag("span", dep, s, _add_ws=False)
         yield "list", core.TagList(s)
         yield "deep", core.Tag("div", core.Tag("p", core.Tag("span", s, _add_ws=False)))
+        for nm in ("textarea", "title", "pre", "noscript", "option", "xmp"):
+            yield "name:" + nm, core.Tag(nm, s)
+            yield "name2:" + nm, core.Tag(nm, s, core.Tag("b", _add_ws=False), _add_ws=False)
     strs = [("".join(r.choice(META + ctx.texts) for _ in range(r.choice([1, 1, 2, 3, 5])))) for _ in range(n)] + META + [s for s in ctx.texts]
     for s in strs:
         e = expected(s)
@@ -60,6 +63,10 @@ def run(R, job):
                 ok = out == "<div>\n  <p>\n    <span>" + e + "</span>\n  </p>\n</div>"
             elif how in ("ctor", "nested", "append", "extend", "children", "tagify", "tagify-list"):
                 ok = out == "<div>" + e + "</div>"
+            elif how.startswith("name:"):
+                ok = out == "<" + how[5:] + ">" + e + "</" + how[5:] + ">"
+            elif how.startswith("name2:"):
+                ok = out == "<" + how[6:] + ">" + e + "<b></b></" + how[6:] + ">"
             elif how == "inline-parent":
                 ok = out == "<span>" + e + "</span>"
             elif how == "insert":
